@@ -274,7 +274,7 @@ class Assembly:
         if n in ('strx', 'strx1', 'strx2', 'strx3', 'strx4'):
             i = v[1]
             b = leb.uleb(i, v[2] if len(v) > 2 else 0) if n == 'strx' else dp.u(int(n[4:]), i)
-            val = self.strings[i] if u._has_base.get('str') else i
+            val = u._strings[i] if u._has_base.get('str') else i
             return b, form, i, val, 0
         if n in ('loclistx', 'rnglistx'):
             i = v[1]
@@ -361,13 +361,16 @@ class Assembly:
         abbrev = self._abbrevs()
         # side tables with fixed contents -> bases are known up front
         # .debug_str_offsets: one contribution per parameter set in use (header 8 or 16 bytes)
-        str_offs = [self.ctx.add_str(s) for s in self.strings]
         so = bytearray()
         ad = bytearray()
         ll = bytearray()
         rl = bytearray()
-        for u in self.units:
+        for un, u in enumerate(self.units):
             dp = u.dp
+            # each unit's contribution lists the strings in its own order (rotated by the unit's ordinal): an index means a different string in every unit
+            k = un % len(self.strings) if self.strings else 0
+            u._strings = self.strings[k:] + self.strings[:k]
+            str_offs = [self.ctx.add_str(s_) for s_ in u._strings]
             base_ats = {at for at, _, _ in (u.root.abbrev.specs if u.root.abbrev else [])}
             u._has_base = {'str': AT['str_offsets_base'] in base_ats, 'addr': AT['addr_base'] in base_ats,
                            'loc': AT['loclists_base'] in base_ats, 'rng': AT['rnglists_base'] in base_ats}
